@@ -242,6 +242,20 @@ def run(ctx, name, kind, **kw):
                 for a in (k * k, k * k + 1, k * k - 1, k * k + 2 * k, (k * k) << 1):
                     if 0 <= a < p:
                         cand.append(a)
+        # arguments (and, below, moduli) that CPython's hash cannot tell apart: hash(int) is the value modulo 2^61 - 1, so a, a + M61, a + 2 M61
+        # hash alike - and so do the tuples (a, p) built from them.  Consecutive calls with such arguments (both residues, or a residue and a
+        # non-residue) are functions of their arguments all the same
+        M61 = (1 << 61) - 1
+        if p > (1 << 64):
+            t = rng.randrange(1, p)
+            a0 = t * t % p
+            twins = [a0]
+            for j in range(1, 400):
+                a1 = (a0 + j * M61) % p
+                if len(twins) < 4 and nt.legendre(a1, p) == (1 if len(twins) < 3 else -1):
+                    twins.append(a1)
+            cand += twins
+            ctx.count("hash_alias_arguments", len(twins))
         for a in cand:
             check_sqrt(ctx, a, p, extra=c.name)
     elif kind == "sqrt_degenerate":
